@@ -8,6 +8,8 @@ pub struct Field {
     pub name: String,
     pub off: usize,
     pub width: u8,
+    /// When set, the fault is a block write of these bytes instead of a boundary value.
+    pub bytes: Option<Vec<u8>>,
 }
 
 fn be16(d: &[u8], o: usize) -> Option<usize> {
@@ -25,7 +27,215 @@ fn f(out: &mut Vec<Field>, name: &str, off: usize, width: u8, len: usize) {
             name: name.to_string(),
             off,
             width,
+            bytes: None,
         });
+    }
+}
+
+fn fw(out: &mut Vec<Field>, name: &str, off: usize, bytes: Vec<u8>, len: usize) {
+    if off + bytes.len() <= len {
+        out.push(Field {
+            name: name.to_string(),
+            off,
+            width: 1,
+            bytes: Some(bytes),
+        });
+    }
+}
+
+/// CharStrings, charset, FDSelect, Private DICT and local subroutines of a CFF table.
+fn cff_deep_fields(out: &mut Vec<Field>, d: &[u8], rng: &mut Rng) {
+    use crate::sfnt_check::{cff_dict, cff_index};
+    let n = d.len();
+    let hdr = usize::from(d.get(2).copied().unwrap_or(4));
+    let Some(names) = cff_index(d, hdr) else { return };
+    let Some(tops) = cff_index(d, names.end) else { return };
+    let Some(&(ts, te)) = tops.objs.first() else { return };
+    let Some(top) = d.get(ts..te) else { return };
+    let dict = cff_dict(top);
+    let find = |op: u16| dict.iter().find(|(o, _)| *o == op).map(|(_, v)| v.clone());
+    if let Some(cs_off) = find(17).and_then(|v| v.last().copied()).filter(|o| *o > 0) {
+        let cs_off = cs_off as usize;
+        f(out, "CFF.charstrings.count", cs_off, 2, n);
+        f(out, "CFF.charstrings.offSize", cs_off + 2, 1, n);
+        if let Some(cs) = cff_index(d, cs_off) {
+            if cs.count > 0 {
+                let off_size = usize::from(d[cs_off + 2]);
+                let k = pick_index(rng, cs.count + 1);
+                let w = if off_size == 3 { 2 } else { off_size.min(4) };
+                f(out, "CFF.charstrings.offset[k]", cs_off + 3 + k * off_size + (off_size - w), w as u8, n);
+                // SIDs of the first glyphs (charset), to aim `seac` at existing glyphs
+                let charset_off = find(15).and_then(|v| v.last().copied()).unwrap_or(0);
+                let mut sids: Vec<u16> = vec![0];
+                if charset_off <= 2 {
+                    sids.extend(1..300u16);
+                } else {
+                    let co = charset_off as usize;
+                    match d.get(co) {
+                        Some(0) => {
+                            for k in 0..299 {
+                                match be16(d, co + 1 + 2 * k) {
+                                    Some(v) => sids.push(v as u16),
+                                    None => break,
+                                }
+                            }
+                        }
+                        Some(fmt @ (1 | 2)) => {
+                            let mut p = co + 1;
+                            while sids.len() < 300 {
+                                let first = be16(d, p);
+                                let left = if *fmt == 1 { d.get(p + 2).map(|&b| usize::from(b)) } else { be16(d, p + 2) };
+                                let (Some(first), Some(left)) = (first, left) else { break };
+                                for j in 0..=left {
+                                    if sids.len() >= 300 {
+                                        break;
+                                    }
+                                    sids.push((first + j) as u16);
+                                }
+                                p += if *fmt == 1 { 3 } else { 4 };
+                            }
+                        }
+                        _ => {}
+                    }
+                }
+                // glyphs reachable through a standard-encoding code (SID 1..=95 <-> code 32..=126)
+                let encodable: Vec<(usize, u8)> = sids
+                    .iter()
+                    .enumerate()
+                    .filter(|(g, sid)| (1..=95).contains(*sid) && *g < cs.count)
+                    .map(|(g, sid)| (g, (*sid + 31) as u8))
+                    .collect();
+                // one glyph program (biased to the first 256 glyphs, which deep walks visit)
+                let mut g = if rng.pct(70) { rng.usize_below(cs.count.min(256)) } else { rng.usize_below(cs.count) };
+                let mut self_code: Option<u8> = None;
+                if !encodable.is_empty() && rng.pct(50) {
+                    let (eg, code) = encodable[rng.usize_below(encodable.len())];
+                    g = eg;
+                    self_code = Some(code);
+                }
+                let (s, e) = cs.objs[g];
+                if e > s {
+                    f(out, "CFF.charstring.first", s, 1, n);
+                    f(out, "CFF.charstring.last", e - 1, 1, n);
+                    f(out, "CFF.charstring.byte", s + rng.usize_below(e - s), 1, n);
+                    // `dx dy bchar achar endchar`: accented character built from two others
+                    // (standard encoding codes), possibly from itself
+                    let any_code = |rng: &mut Rng| -> u8 {
+                        if !encodable.is_empty() && rng.pct(70) {
+                            encodable[rng.usize_below(encodable.len())].1
+                        } else {
+                            32 + rng.below(95) as u8
+                        }
+                    };
+                    let c1 = match self_code {
+                        Some(c) if rng.pct(60) => c,
+                        _ => any_code(rng),
+                    };
+                    let c2 = if rng.pct(50) { c1 } else { any_code(rng) };
+                    // operand encoding of an integer v in -107..=107 is the single byte v + 139
+                    let enc = |c: u8| -> Vec<u8> {
+                        if c <= 107 {
+                            vec![c + 139]
+                        } else {
+                            vec![247, c - 108]
+                        }
+                    };
+                    let mut prog = vec![139u8, 139];
+                    prog.extend(enc(c1));
+                    prog.extend(enc(c2));
+                    prog.push(14);
+                    if e - s >= prog.len() {
+                        fw(out, "CFF.charstring.seac", s, prog, n);
+                    }
+                    // callsubr / callgsubr with an arbitrary index
+                    let idx = [139u8, 32, 246, 28][rng.usize_below(4)];
+                    if e - s >= 4 {
+                        let op = if rng.pct(50) { 10 } else { 29 };
+                        if idx == 28 {
+                            fw(out, "CFF.charstring.callsubr", s, vec![28, 0x7f, 0xff, op], n);
+                        } else {
+                            fw(out, "CFF.charstring.callsubr", s, vec![idx, op, 14], n);
+                        }
+                    }
+                }
+            }
+        }
+    }
+    if let Some(off) = find(15).and_then(|v| v.last().copied()).filter(|o| *o > 2) {
+        let off = off as usize;
+        f(out, "CFF.charset.format", off, 1, n);
+        f(out, "CFF.charset.first", off + 1, 2, n);
+        f(out, "CFF.charset.nLeft", off + 3, 1, n);
+        f(out, "CFF.charset.second", off + 3, 2, n);
+    }
+    if let Some(off) = find(16).and_then(|v| v.last().copied()).filter(|o| *o > 1) {
+        let off = off as usize;
+        f(out, "CFF.encoding.format", off, 1, n);
+        f(out, "CFF.encoding.count", off + 1, 1, n);
+    }
+    if let Some(off) = find(0x0c25).and_then(|v| v.last().copied()) {
+        let off = off as usize;
+        f(out, "CFF.fdselect.format", off, 1, n);
+        f(out, "CFF.fdselect.nRanges", off + 1, 2, n);
+        f(out, "CFF.fdselect.range0.first", off + 3, 2, n);
+        f(out, "CFF.fdselect.range0.fd", off + 5, 1, n);
+        if let Some(nr) = be16(d, off + 1) {
+            f(out, "CFF.fdselect.sentinel", off + 3 + 3 * nr, 2, n);
+        }
+    }
+    if let Some(off) = find(0x0c24).and_then(|v| v.last().copied()) {
+        let off = off as usize;
+        f(out, "CFF.fdarray.count", off, 2, n);
+        f(out, "CFF.fdarray.offSize", off + 2, 1, n);
+        if let Some(fda) = cff_index(d, off) {
+            if let Some(&(s, e)) = fda.objs.get(rng.usize_below(fda.count.max(1))) {
+                if e > s {
+                    f(out, "CFF.fontdict.byte", s + rng.usize_below(e - s), 1, n);
+                }
+            }
+        }
+    }
+    // Private DICT: operands are (size, offset)
+    if let Some(v) = find(18) {
+        if let [size, off] = v[..] {
+            let (size, off) = (size.max(0) as usize, off.max(0) as usize);
+            if size > 0 {
+                f(out, "CFF.private.byte", off + rng.usize_below(size), 1, n);
+            }
+            if let Some(pd) = d.get(off..off + size) {
+                let pdict = cff_dict(pd);
+                if let Some(so) = pdict.iter().find(|(o, _)| *o == 19).and_then(|(_, v)| v.last().copied()) {
+                    let subrs = off + so.max(0) as usize;
+                    f(out, "CFF.localsubrs.count", subrs, 2, n);
+                    f(out, "CFF.localsubrs.offSize", subrs + 2, 1, n);
+                    if let Some(ix) = cff_index(d, subrs) {
+                        if let Some(&(s, e)) = ix.objs.get(rng.usize_below(ix.count.max(1))) {
+                            if e > s {
+                                f(out, "CFF.localsubr.byte", s + rng.usize_below(e - s), 1, n);
+                                f(out, "CFF.localsubr.last", e - 1, 1, n);
+                                if e - s >= 3 {
+                                    // a subroutine that calls a subroutine
+                                    fw(out, "CFF.localsubr.recursive", s, vec![[139u8, 32, 140][rng.usize_below(3)], 10, 11], n);
+                                }
+                            }
+                        }
+                    }
+                }
+            }
+        }
+    }
+    // global subroutines follow the string INDEX
+    if let Some(strings) = cff_index(d, tops.end) {
+        if let Some(gs) = cff_index(d, strings.end) {
+            if let Some(&(s, e)) = gs.objs.get(rng.usize_below(gs.count.max(1))) {
+                if e > s {
+                    f(out, "CFF.gsubr.byte", s + rng.usize_below(e - s), 1, n);
+                    if e - s >= 3 {
+                        fw(out, "CFF.gsubr.recursive", s, vec![[139u8, 32, 140][rng.usize_below(3)], 29, 11], n);
+                    }
+                }
+            }
+        }
     }
 }
 
@@ -304,6 +514,7 @@ pub fn locate(tag: &str, d: &[u8], rng: &mut Rng) -> Vec<Field> {
                     None => break,
                 }
             }
+            cff_deep_fields(&mut out, d, rng);
         }
         "CFF2" => {
             f(&mut out, "CFF2.major", 0, 1, n);
